@@ -159,6 +159,14 @@ chk(
     "DESIGN.md 4 C18",
 )
 
+chk(
+    "C20",
+    "differential testing of the four entry points against the documented composition, with order-sensitive probe middlewares and block-protocol probes (finite grids + seeded Hypothesis stacks)",
+    "Exploration: 18 documents (grammar-derived with colliding keys and failed blocks, non-ASCII Latin and CJK) x every stack of <= 2 members of (2 order-sensitive library probes + 3 shipped middlewares) in each of parse_stack / append_middleware / unparse_stack / prepend_middleware (and write_file's aliases), all both-arguments combinations on every entry point, parse_file x {utf-8, latin-1, gbk, utf-16}, write_file x {path, StringIO, file object x 4 encodings} x 3 formats, block probes returning for each of the 5 block kinds each of 14 result kinds (None, [], (), block, lists/tuples of 1-3 blocks, generator, object, 0, False, list with a non-block, str, dict), and random stacks of <= 3 members in both arguments: the outcome (canonical library / text, or exception type) must equal the documented composition computed by the harness (split; given stack in order, or ResolveStringReferences + RemoveEnclosing then the additions; additions then brace-enclosing on a copy; writer), ValueError iff both arguments are given, TypeError for non-block results, each block kind dispatched to its own transform_* method.",
+    "Trusted: the probe middlewares and the reference fold in pbt/props/C20.py; shipped middlewares are used as black boxes on both sides (their own behaviour is the subject of other checks). Documents contain no carriage return.",
+    "DESIGN.md 4 C20",
+)
+
 ALL = ["C%02d" % i for i in range(1, 21)]
 NOT_YET = "check not built yet in this revision of /verif (see DESIGN.md section 4 for its design); not claimed"
 
